@@ -10,7 +10,7 @@ from props.c16 import _Desc, _seq_byte
 
 LEVEL = "proof"
 MANIFEST = dict(
-    text="Lean 4 theorems, by induction over every finite history of STATP messages (any number of 4-byte records, repeated positions, the simulator's  Session 4: histories contain partial updates that arrive while a request holds the protocol lock (busy windows): application stays in arrival order and every update is acknowledged."
+    text="Lean 4 theorems, by induction over every finite history of STATP messages (any number of 4-byte records, repeated positions, the simulator's  Session 4: histories contain partial updates that arrive while a request holds the protocol lock (busy windows): application stays in arrival order and every update is acknowledged. The acknowledging handler and the apply callback of the awaitable client have no suspension point (partial_update_never_suspends over the regenerated skeletons; no_suspension_no_aw: every trace is one atomic block)."
          "1-byte form) interleaved with refreshes: both clients' block equals the sequential reference (async_equals_reference for ANY stale pending list; "
          "sync_equals_reference with the invariant 'pending list empty between messages'), exactly one STATQ per STATP with a sequence number in 1..191 "
          "(through C16's counter theorems). The model is parameterised by facts re-extracted from the source on every run (record slicing arithmetic, the "
@@ -245,7 +245,7 @@ def ev_json(ev):
 
 
 def run(ctx):
-    st = translate.run(["PartialFacts", "SeqCounter"])
+    st = translate.run(["PartialFacts", "SeqCounter", "Skeletons"])
     ctx.cov["translator"] = st
     for k, v in st.items():
         if v != "ok":
